@@ -224,10 +224,11 @@ def run(chk):
   for low, (rn, kind, node) in sorted(reg.items()):
     if kind == 'aggregate':
       cname = dotted(node.args[2])
-      ok = cname in sm.classes and {'step', 'finalize'} <= set(sm.classes[cname].methods)
+      flat = repo.flat_class(sm, cname) if cname in sm.classes else None
+      ok = flat is not None and {'step', 'finalize'} <= set(flat.methods)
       step_ar = None
       if ok:
-        step_ar = len(sm.classes[cname].methods['step'].params) - 1
+        step_ar = len(flat.methods['step'].params) - 1
       chk.ob('C20-R1', ok and step_ar == rn, None,
              'aggregate %s -> class %s with step/%s and finalize' % (low, cname, rn),
              'registered arity %s, step takes %s' % (rn, step_ar), fi=rfi, node=node)
